@@ -16,6 +16,8 @@ const (
 	HeaderLen = 20 // header length without extension headers
 )
 
+const maxHeaderLen = 60 // header length with the maximum of extension headers
+
 type HeaderFlags int
 
 const (
@@ -60,6 +62,10 @@ func (h *Header) Marshal() ([]byte, error) {
 		return nil, errHeaderTooShort
 	}
 	hdrlen := HeaderLen + len(h.Options)
+	// The header length field counts 32-bit words and is 4 bits wide.
+	if len(h.Options)%4 != 0 || hdrlen > maxHeaderLen {
+		return nil, errInvalidOptions
+	}
 	b := make([]byte, hdrlen)
 	b[0] = byte(Version<<4 | (hdrlen >> 2 & 0x0f))
 	b[1] = byte(h.TOS)
